@@ -1,7 +1,7 @@
 (* C12 on the default PWM map (fans whose PWM cannot be swept).
    This file holds only property theorems; each is closed by [exact]. *)
 From Coq Require Import ZArith List.
-From F2G Require Import Go.GoFloat Model.Util Model.Startup Proofs.DefaultMap.
+From F2G Require Import Go.GoFloat Model.Util Model.Controller Model.Startup Proofs.DefaultMap Proofs.DefaultMapCtl.
 Import ListNotations.
 Open Scope Z_scope.
 
@@ -15,3 +15,12 @@ Print Assumptions C12_default_map_is_identity.
 Theorem C12_default_map_clamps : forall r, written default_map r = FcVal (Z.max 0 (Z.min 255 r)).
 Proof. exact written_default_clamp. Qed.
 Print Assumptions C12_default_map_clamps.
+
+(* composed with the controller: for ANY curve value and any limits 0 <= lo <= hi <= 255
+   the fan without PWM read-back receives exactly the rescaled request, inside the limits *)
+Theorem C12_default_map_steady : forall v lo hi,
+  0 <= lo -> lo <= hi -> hi <= 255 ->
+  written default_map (Model.Controller.steady v lo hi) = FcVal (Model.Controller.steady v lo hi)
+  /\ lo <= Model.Controller.steady v lo hi <= hi.
+Proof. exact Proofs.DefaultMapCtl.written_default_steady. Qed.
+Print Assumptions C12_default_map_steady.
